@@ -66,13 +66,13 @@ PY2V = [
          extern={"x.coords.dtype": "Ok xdt",
                  "can_store(idx_dtype, max(max(compressed_shape), x.nnz))": f"{CAN} idx_dtype m",
                  "np.min_scalar_type(max(max(compressed_shape), x.nnz))": f"{MST} m"}),
-    # GCXS concatenate / stack: indptr upcast for the total number of stored elements
-    dict(name="g_gcxs_concat_upcast", file=GCOMMON, func="concatenate", params=["indptr", "total_nnz"],
-         result=["indptr"], selector=("if", "not can_store(indptr.dtype, total_nnz)"),
-         extern={"indptr.astype(np.min_scalar_type(total_nnz))": f"{MST} total_nnz"}),
-    dict(name="g_gcxs_stack_upcast", file=GCOMMON, func="stack", params=["indptr", "total_nnz"],
-         result=["indptr"], selector=("if", "not can_store(indptr.dtype, total_nnz)"),
-         extern={"indptr.astype(np.min_scalar_type(total_nnz))": f"{MST} total_nnz"}),
+    # GCXS concatenate / stack: indptr upcast for max(total nnz, joined row count) (36b3bc9)
+    dict(name="g_gcxs_concat_upcast", file=GCOMMON, func="concatenate", params=["indptr", "needed"],
+         result=["indptr"], selector=("if", "not can_store(indptr.dtype, needed)"),
+         extern={"indptr.astype(np.min_scalar_type(needed))": f"{MST} needed"}),
+    dict(name="g_gcxs_stack_upcast", file=GCOMMON, func="stack", params=["indptr", "needed"],
+         result=["indptr"], selector=("if", "not can_store(indptr.dtype, needed)"),
+         extern={"indptr.astype(np.min_scalar_type(needed))": f"{MST} needed"}),
 ]
 
 # ... and the per-axis condition inside that test: the element of the generator expression of the `if`
@@ -181,6 +181,13 @@ FACT = [
       "np.cumsum(np.bincount(coords[0], minlength=row_size), out=indptr[1:])"],
      "Definition s_from_coo_digit (d : dty) (lin : list Z) (stride dim : Z) : tarr :=\n"
      "  assign_into d (mkT (DInt i64) (map (fun l => np_mod (np_div l stride) dim) lin))."),
+    # GCXS concatenate / stack: what the index-pointer dtype must hold (both functions; plen = indptr.shape[0])
+    ("s_gcxs_join_needed", GCOMMON, "concatenate",
+     ["needed = max(total_nnz, indptr.shape[0] - 1)", "indptr = np.concatenate(ptr_list)"],
+     "Definition s_gcxs_join_needed (total_nnz plen : Z) : Z := Z.max total_nnz (plen - 1)."),
+    ("s_gcxs_stack_needed", GCOMMON, "stack",
+     ["needed = max(total_nnz, indptr.shape[0] - 1)", "indptr = np.concatenate(ptr_list)"],
+     "Definition s_gcxs_stack_needed (total_nnz plen : Z) : Z := Z.max total_nnz (plen - 1)."),
     # GCXS -> COO: row numbers are written into an array of indptr's dtype
     ("s_uncompress_dtype", GCONVERT, "uncompress_dimension",
      ["uncompressed = np.empty(indptr[-1], dtype=indptr.dtype)",
